@@ -10,11 +10,25 @@ From InvokeVerif Require Import Proofs.RunnerSM_facts Proofs.C08_sm Proofs.Runne
     after a forwarded interrupt) and the readers get EOF -- for EVERY event
     script and configuration -- run()/join() terminates and by then no worker is
     running, the timer is not armed, program_finished is set and stop() was called. *)
+(* Reading notes.  (1) [fair c] ("nobody else keeps the pipes open") is a premise here AND a
+   condition inside [C08Spec.spec_ok]: a descendant holding a pipe makes run() block in an untimed
+   join although the command has ended -- finding F-C14b, listed for C08 too.  (2) [run_sm] is a
+   total fold over the script, so "the model terminates" is definitional; the content of the theorem
+   is the settled outcome and the released resources, and [C08_steps_linear] bounds the main thread's
+   work.  (3) A KeyboardInterrupt that arrives while the main thread is inside a join is not an event
+   of the model; on the real runner it escapes run() and leaves workers unjoined (finding F-C08g). *)
 Theorem C08_terminates_when_process_ends :
   forall c script,
     start_raises c = false -> fair c = true -> process_ends c script = true ->
     clean (run_sm c script).
 Proof. exact terminates_when_process_ends. Qed.
+
+(** The bound: the number of main-thread transitions plus events processed is
+    linear in the length of the script (at most 11 per event, 20 for start and drain). *)
+Theorem C08_steps_linear :
+  forall c script, start_raises c = false ->
+    n_steps (snd (run_sm c script)) <= 11 * List.length script + 20.
+Proof. exact steps_linear. Qed.
 
 (** The invariant behind it (the variant: once past the wait loop the main
     thread never returns to it, and every join todo list is duplicate-free, so at
